@@ -333,6 +333,20 @@ func dispatchPanicClass(msgs []string) string {
 	return "unparsed"
 }
 
+// onReplayRepeat runs body once; under ./check replay it repeats the same case
+// (same scenario, same plan) until a violation shows up or n executions are
+// done: the Go scheduler is perturbed, not controlled, so one execution of a
+// recorded case need not take the recorded interleaving again.
+func onReplayRepeat(r *rep.Reporter, c *rep.Case, n int, body func()) {
+	body()
+	if !r.Replaying() {
+		return
+	}
+	for i := 1; i < n && !c.Violated(); i++ {
+		body()
+	}
+}
+
 func TestVerif(t *testing.T) {
 	r := rep.Open("C12")
 	defer r.Close()
